@@ -38,12 +38,12 @@ type eopt struct {
 	dep    bool // from a deprecated stanza (counts down)
 
 	// typed copies for models that need values rather than strings
-	kind    string
-	pfx     netip.Prefix
-	rpref   string
-	list    []string // servers / domain names
-	num     int64    // mtu
-	str     string   // captive portal URI
+	kind  string
+	pfx   netip.Prefix
+	rpref string
+	list  []string // servers / domain names
+	num   int64    // mtu
+	str   string   // captive portal URI
 }
 
 func (o eopt) String() string {
@@ -86,8 +86,8 @@ func prefName(p ndp.Preference) string {
 // router lifetime (returned separately).
 func wireHeader(ra *ndp.RouterAdvertisement) (string, int64) {
 	return fmt.Sprintf("hop=%d M=%t O=%t pref=%s reach=%dms retrans=%dms home=%t proxy=%t",
-		ra.CurrentHopLimit, ra.ManagedConfiguration, ra.OtherConfiguration, prefName(ra.RouterSelectionPreference),
-		ra.ReachableTime.Milliseconds(), ra.RetransmitTimer.Milliseconds(), ra.MobileIPv6HomeAgent, ra.NeighborDiscoveryProxy),
+			ra.CurrentHopLimit, ra.ManagedConfiguration, ra.OtherConfiguration, prefName(ra.RouterSelectionPreference),
+			ra.ReachableTime.Milliseconds(), ra.RetransmitTimer.Milliseconds(), ra.MobileIPv6HomeAgent, ra.NeighborDiscoveryProxy),
 		int64(ra.RouterLifetime / time.Second)
 }
 
@@ -151,16 +151,16 @@ type modelIn struct {
 }
 
 type modelOut struct {
-	hop              int
-	managed, other   bool
-	reachMs, retrMs  int64
-	hdr      string
-	lifetime int64
-	opts     []eopt
-	fail     string   // non-empty: RA generation must fail
-	unrep    []string // accepted values that cannot be represented (C03)
-	notFwd   bool     // the not-forwarding misconfiguration must be reported
-	usedAddr int
+	hop             int
+	managed, other  bool
+	reachMs, retrMs int64
+	hdr             string
+	lifetime        int64
+	opts            []eopt
+	fail            string   // non-empty: RA generation must fail
+	unrep           []string // accepted values that cannot be represented (C03)
+	notFwd          bool     // the not-forwarding misconfiguration must be reported
+	usedAddr        int
 }
 
 // dsec parses a documented duration value. ok=false: the model has no opinion
@@ -242,8 +242,8 @@ func wildcardPrefixes(list []laddr) []netip.Prefix {
 // bestRDNSS is C14's choice; ok=false when no address is eligible.
 func bestRDNSS(list []laddr) (netip.Addr, bool) {
 	type cand struct {
-		ip    netip.Addr
-		key   [2]int
+		ip  netip.Addr
+		key [2]int
 	}
 	var cs []cand
 	for _, a := range list {
